@@ -109,6 +109,7 @@ func rcacheReplay(s *Summary, raw json.RawMessage) {
 		}
 	})
 	defer rux.VerifSetCacheTracer(nil)
+	contentReported := false
 	for i, st := range c.H {
 		path := tokStr(st.Path)
 		where := fmt.Sprintf("table %s hmna=%v hfb=%v cap=%d, step %d/%d: %s %s", c.Table, c.Hmna, c.Hfb, c.Cap, i+1, len(c.H), st.M, path)
@@ -160,9 +161,10 @@ func rcacheReplay(s *Summary, raw json.RawMessage) {
 		if cache != nil {
 			got = cache.VerifKeys()
 		}
-		if !(len(got) == 0 && len(want) == 0) && !reflect.DeepEqual(got, want) {
+		if !(len(got) == 0 && len(want) == 0) && !reflect.DeepEqual(got, want) && !contentReported {
+			// reported once per history; the history goes on, because what the requests observe (C07) is judged separately
 			bad("cache-content", fmt.Sprintf("cache keys %v, model %v", got, want))
-			return
+			contentReported = true
 		}
 		// repeats are served from the cache: a predicted hit must not store anything; a dynamic direct miss must store m+path
 		sets := []string{}
@@ -172,9 +174,9 @@ func rcacheReplay(s *Summary, raw json.RawMessage) {
 			}
 		}
 		sort.Strings(sets)
-		if st.Hit && len(sets) > 0 && st.Code < 1000 {
+		if st.Hit && len(sets) > 0 && st.Code < 1000 && !contentReported {
 			bad("cache-fill", fmt.Sprintf("model: answered from the cache, but the router stored %v", sets))
-			return
+			contentReported = true
 		}
 	}
 }
